@@ -73,6 +73,9 @@ func newWorld(c *sim.Ctx, followers int, opt worldOpts) *world {
 	gh := model.Header{Time: w.genTime, Body: model.BodyHash([]model.Txn{gt})}
 	w.genSig = cipher.MustSignHash(cipher.SHA256(gh.Hash()), w.pubKey.sec)
 
+	if opt.before != nil {
+		opt.before(w)
+	}
 	w.nodes = append(w.nodes, w.newNode(0, true))
 	for i := 0; i < followers; i++ {
 		w.nodes = append(w.nodes, w.newNode(i+1, false))
@@ -81,6 +84,7 @@ func newWorld(c *sim.Ctx, followers int, opt worldOpts) *world {
 }
 
 type worldOpts struct {
+	before     func(w *world) // runs after keys and parameters are drawn, before the nodes are created
 	hugeWeight int
 }
 
